@@ -104,6 +104,7 @@ Fixpoint conv_loop (fuel : nat) (sl : slist) (s : list ch) : res (list ch) :=
       end
   end.
 
-(* pub fn convert(src: &str) -> String *)
+(* pub fn convert(src: &str) -> String; the result is `res.trim_end().to_string()`: leading white
+   space (line breaks in particular) is kept so that the lexer's line numbers are right *)
 Definition convert (src : list ch) : res (list ch) :=
-  do o <- conv_loop (S (length src)) init_items src; Ok (trim o).
+  do o <- conv_loop (S (length src)) init_items src; Ok (trim_end o).
